@@ -772,7 +772,8 @@ class Sum(Binary):
 class AndExpression(Binary):
     # there is a special comparison with & instruction
     def __init__(self, ebpf, left, right):
-        super().__init__(ebpf, left, right, Opcode.AND, False, False)
+        super().__init__(ebpf, left, right, Opcode.AND,
+                         left.signed or right.signed, False)
 
     def __ne__(self, value):
         if isinstance(value, int) and value == 0:
